@@ -1552,7 +1552,8 @@ namespace link_layer {
                 defered_conn_event_counter_ = read_16bit( &body[ 10 ] );
                 commit = false;
 
-                if ( static_cast< std::uint16_t >( defered_conn_event_counter_ - this->connection_event_counter() + 1 ) & 0x8000
+                // the instant is the current event, an event in the past or the very next event
+                if ( static_cast< std::uint16_t >( defered_conn_event_counter_ - this->connection_event_counter() - 1 ) & 0x8000
                     || defered_conn_event_counter_ == this->connection_event_counter() + 1 )
                 {
                     disconnecting_reason_ = connection_instant_passed;
@@ -1592,7 +1593,8 @@ namespace link_layer {
                 defered_conn_event_counter_ = read_16bit( &body[ 6 ] );
                 commit = false;
 
-                if ( static_cast< std::uint16_t >( defered_conn_event_counter_ - this->connection_event_counter() ) & 0x8000 )
+                // the instant is the current event or an event in the past
+                if ( static_cast< std::uint16_t >( defered_conn_event_counter_ - this->connection_event_counter() - 1 ) & 0x8000 )
                 {
                     disconnecting_reason_ = connection_instant_passed;
                     result = ll_result::disconnect;
@@ -1677,7 +1679,14 @@ namespace link_layer {
             }
             else if ( this->handle_phy_request( opcode, size, pdu, write, *this, commit ) )
             {
-                // all phy PDU handled in handle_phy_reqest
+                // all phy PDU handled in handle_phy_reqest; the instant of a LL_PHY_UPDATE_IND is the current event or an event in the past
+                if ( opcode == LL_PHY_UPDATE_IND && !defered_ll_control_pdu_.empty()
+                  && ( static_cast< std::uint16_t >( defered_conn_event_counter_ - this->connection_event_counter() - 1 ) & 0x8000 ) )
+                {
+                    defered_ll_control_pdu_ = write_buffer{ nullptr, 0 };
+                    disconnecting_reason_   = connection_instant_passed;
+                    result = ll_result::disconnect;
+                }
             }
             else if ( opcode != LL_UNKNOWN_RSP )
             {
